@@ -374,14 +374,15 @@ def executeOrder (e : Engine M) (id : Nat) : Engine M :=
   if o.status ≠ .active then e else
   let tradesBefore := e.w.trades.length
   let e1 := logE { e with w := Acc.execute e.w id } (Event.fill id e.time o.price o.qty)
-  let p := posOf e1 o.sym
-  let e2 := logE e1 (Event.pos o.sym p.qty p.entry)
-  match routeOfSym e2 o.sym with
-  | none => e2
-  | some r =>
-    let e3 := if e2.w.trades.length > tradesBefore then
-        setStrat e2 r (fun s => { s with tradesCount := s.tradesCount + (e2.w.trades.length - tradesBefore) }) else e2
-    onUpdatedPosition u e3 r id
+  let e4 := match routeOfSym e1 o.sym with
+    | none => e1
+    | some r =>
+      let e3 := if e1.w.trades.length > tradesBefore then
+          setStrat e1 r (fun s => { s with tradesCount := s.tradesCount + (e1.w.trades.length - tradesBefore) }) else e1
+      onUpdatedPosition u e3 r id
+  if e4.err.isSome then e4 else
+  let p := posOf e4 o.sym
+  logE e4 (Event.pos o.sym p.qty p.entry)
 
 /-- `store.orders.execute_pending_market_orders`: a Python `for` over a list that hooks may extend
     while it runs; the list is emptied afterwards.  `fuel` bounds the iteration. -/
@@ -485,7 +486,7 @@ def insertBy (key : Nat → Rat) (desc : Bool) (x : Nat) : List Nat → List Nat
   | y :: ys => if (if desc then key y < key x else key x < key y) then x :: y :: ys else y :: insertBy key desc x ys
 
 def sortedBy (key : Nat → Rat) (desc : Bool) (xs : List Nat) : List Nat :=
-  xs.foldl (fun acc x => acc ++ [x]) [] |>.foldr (fun x acc => insertBy key desc x acc) []
+  xs.foldl (fun acc x => insertBy key desc x acc) []
 
 /-- `_sort_execution_orders(orders, short_candles)` -/
 def sortExecutionOrders (e : Engine M) (orders : List Nat) (candles : List Candle) : List Nat :=
